@@ -74,14 +74,32 @@ impl ElixirRange {
     }
 
     /// Returns the number of elements in the range.
+    ///
+    /// The full `i64::MIN..=i64::MAX` range has 2^64 elements, one more than `usize` can hold
+    /// on a 64-bit target; the result saturates at `usize::MAX`.
     #[must_use]
     pub fn len(&self) -> usize {
-        if self.is_empty() {
+        usize::try_from(self.count()).unwrap_or(usize::MAX)
+    }
+
+    /// Number of elements, computed in 128 bits so that no bound or step can overflow.
+    fn count(&self) -> u128 {
+        Self::count_between(self.first, self.last, self.step)
+    }
+
+    fn count_between(first: i64, last: i64, step: i64) -> u128 {
+        let (first, last, step) = (first as i128, last as i128, step as i128);
+        let empty = if step > 0 {
+            first > last
+        } else if step < 0 {
+            first < last
+        } else {
+            true
+        };
+        if empty {
             return 0;
         }
-        let diff = (self.last - self.first).abs();
-        let step = self.step.abs();
-        ((diff / step) + 1) as usize
+        (last - first).unsigned_abs() / step.unsigned_abs() + 1
     }
 
     /// Returns true if the range contains the given value.
@@ -90,10 +108,16 @@ impl ElixirRange {
         if self.is_empty() {
             return false;
         }
-        if self.step > 0 {
-            value >= self.first && value <= self.last && (value - self.first) % self.step == 0
+        let (first, last, step, value) = (
+            self.first as i128,
+            self.last as i128,
+            self.step as i128,
+            value as i128,
+        );
+        if step > 0 {
+            value >= first && value <= last && (value - first) % step == 0
         } else {
-            value <= self.first && value >= self.last && (self.first - value) % (-self.step) == 0
+            value <= first && value >= last && (first - value) % (-step) == 0
         }
     }
 
@@ -169,47 +193,32 @@ impl Iterator for RangeIterator {
         }
 
         let value = self.current;
-
-        if self.range.step > 0 {
-            if value > self.range.last {
-                self.done = true;
-                return None;
-            }
-            if value == self.range.last {
-                self.done = true;
-            } else {
-                self.current = self.current.saturating_add(self.range.step);
-            }
+        let past_end = if self.range.step > 0 {
+            value > self.range.last
         } else {
-            if value < self.range.last {
-                self.done = true;
-                return None;
-            }
-            if value == self.range.last {
-                self.done = true;
-            } else {
-                self.current = self.current.saturating_add(self.range.step);
-            }
+            value < self.range.last
+        };
+        if past_end {
+            self.done = true;
+            return None;
+        }
+
+        // the next element may not be representable; then `value` was the last one
+        match self.current.checked_add(self.range.step) {
+            Some(next) => self.current = next,
+            None => self.done = true,
         }
 
         Some(value)
     }
 
     fn size_hint(&self) -> (usize, Option<usize>) {
-        if self.done || self.range.is_empty() {
+        if self.done {
             return (0, Some(0));
         }
-        let remaining = if self.range.step > 0 {
-            if self.current > self.range.last {
-                0
-            } else {
-                (((self.range.last - self.current) / self.range.step) + 1) as usize
-            }
-        } else if self.current < self.range.last {
-            0
-        } else {
-            (((self.current - self.range.last) / (-self.range.step)) + 1) as usize
-        };
+        let remaining =
+            ElixirRange::count_between(self.current, self.range.last, self.range.step);
+        let remaining = usize::try_from(remaining).unwrap_or(usize::MAX);
         (remaining, Some(remaining))
     }
 }
